@@ -304,19 +304,28 @@ def rename_stmt(s, f, m, keep_real_idents=False, keep_real_guard=False):
 FUNCS = {"<func>f": lambda x: 2 * x + 1, "<func>g": lambda x, y: x - 3 * y}
 
 
-def linear_extension(stmts, reverse):
-    """deterministic topological order: lowest (or highest) list position first"""
+def linear_extension(stmts, mode, first_ids=None):
+    """deterministic topological order. mode 'list': lowest list position first; 'reverse': highest first;
+    'alternate': switch between the statements of the first method (`first_ids`) and the others whenever
+    possible, so the two halves of a fused phase interleave"""
     ids = [s.id for s in stmts]
     pos = {i: k for k, i in enumerate(ids)}
     byid = {s.id: s for s in stmts}
+    first_ids = first_ids or set()
     done, order = set(), []
+    last = 2
     while len(order) < len(stmts):
         ready = [i for i in ids if i not in done and all(d in done for d in byid[i].depends_on)]
         if not ready:
             raise ValueError("cyclic or dangling dependencies")
-        ready.sort(key=lambda i: pos[i], reverse=reverse)
-        done.add(ready[0])
-        order.append(byid[ready[0]])
+        ready.sort(key=lambda i: pos[i], reverse=(mode == "reverse"))
+        pick = ready[0]
+        if mode == "alternate":
+            other = [i for i in ready if (1 if i in first_ids else 2) != last]
+            pick = (other or ready)[0]
+            last = 1 if pick in first_ids else 2
+        done.add(pick)
+        order.append(byid[pick])
     return order
 
 
@@ -333,7 +342,7 @@ def freeze(v):
         return ("o", repr(v))
 
 
-def run_dag(dag, pr, reverse):
+def run_dag(dag, pr, mode, first_ids=None):
     """statements of each step are executed by the real NumpyInterpreter (evaluate_condition / exec_*), in a
     deterministic linear extension of the dependency order; returns per-step snapshots of persistent
     variables and the yielded events"""
@@ -350,7 +359,7 @@ def run_dag(dag, pr, reverse):
         phase = dag.phases[interp.next_phase]
         interp.next_phase = phase.next_phase
         try:
-            for st in linear_extension(list(phase.statements), reverse):
+            for st in linear_extension(list(phase.statements), mode, (first_ids or {}).get(phase.name)):
                 if not interp.evaluate_condition(st):
                     continue
                 res = getattr(interp, st.exec_method)(st)
@@ -369,12 +378,6 @@ def run_dag(dag, pr, reverse):
     return snaps, events
 
 
-def run_both_orders(dag, pr):
-    a = run_dag(dag, pr, False)
-    b = run_dag(dag, pr, True)
-    return a, b
-
-
 def persistent_rw(m):
     r, w = set(), set()
     for ph in m["phases"].values():
@@ -385,47 +388,61 @@ def persistent_rw(m):
     return r, w
 
 
-def compare_runs(pr, fused, which=("m1", "m2")):
-    """None if out of domain, else list of differences between fused and separate runs"""
+def run_domain(pr):
+    """None if the run clause does not apply to the pair, else what is needed to compare"""
     r1, w1 = persistent_rw(pr["m1"])
     r2, w2 = persistent_rw(pr["m2"])
     if w1 & (r2 | w2) or w2 & (r1 | w1):
         return None
     comps = {}
-    for key, m in (("m1", pr["m1"]), ("m2", pr["m2"])):
-        comps[key] = {s["comp"] for ph in m["phases"].values() for s in ph["stmts"] if s["k"] == "yield"}
+    for key in ("m1", "m2"):
+        comps[key] = {s["comp"] for ph in pr[key]["phases"].values() for s in ph["stmts"] if s["k"] == "yield"}
     if comps["m1"] & comps["m2"]:
         return None
+    pred = build_pred(pr.get("pred"))
+    d1, d2 = build_dag(pr["m1"]), build_dag(pr["m2"])
+    if pred is not None:
+        # temporaries the caller's predicate keeps shared make the methods interfere by the caller's choice
+        for name in set(d1.phases) & set(d2.phases):
+            S1, S2 = list(d1.phases[name].statements), list(d2.phases[name].statements)
+            for n in set(names_of(S1)) & set(names_of(S2)):
+                if not persistent(n) and not pred(n) and not loop_scoped_only(S1 + S2, n):
+                    return None
+                if persistent(n) and pred(n):
+                    return None             # the caller asked to separate persistent state: nothing to compare
     alone = {}
-    for key, m in (("m1", pr["m1"]), ("m2", pr["m2"])):
+    for key, d in (("m1", d1), ("m2", d2)):
         try:
-            a, b = run_both_orders(build_dag(m), pr)
+            a = run_dag(d, pr, "list")
+            b = run_dag(d, pr, "reverse")
         except Exception:
             return None                     # the method does not run on its own: outside the domain
         if a != b:
             return None                     # the method itself depends on the schedule
         alone[key] = a
+    first_ids = {name: {st.id for st in ph.statements} for name, ph in d1.phases.items()}
+    return {"w": {"m1": w1, "m2": w2}, "comps": comps, "alone": alone, "first_ids": first_ids}
+
+
+def compare_runs(pr, fused, dom):
+    """list of differences between the fused run and the separate runs"""
     diffs = []
-    for reverse in (False, True):
+    for mode in ("list", "reverse", "alternate"):
         try:
-            snaps, events = run_dag(fused, pr, reverse)
+            snaps, events = run_dag(fused, pr, mode, dom["first_ids"])
         except Exception as ex:
-            diffs.append("fused run (%s order) raises %s: %s" % ("reverse" if reverse else "list", type(ex).__name__,
-                                                                 str(ex)[:120]))
+            diffs.append("fused run (%s order) raises %s: %s" % (mode, type(ex).__name__, str(ex)[:120]))
             continue
-        for key, w in (("m1", w1), ("m2", w2)):
-            if key not in which:
-                continue
-            asnaps, aevents = alone[key]
+        for key in ("m1", "m2"):
+            asnaps, aevents = dom["alone"][key]
             for step, (fs, as_) in enumerate(zip(snaps, asnaps)):
-                for n in sorted(w):
+                for n in sorted(dom["w"][key]):
                     if fs.get(n) != as_.get(n):
                         diffs.append("%s order, step %d: %s of %s is %s fused but %s alone"
-                                     % ("reverse" if reverse else "list", step, n, key, fs.get(n), as_.get(n)))
-            fe = [e for e in events if e[0] in comps[key]]
+                                     % (mode, step, n, key, fs.get(n), as_.get(n)))
+            fe = [e for e in events if e[0] in dom["comps"][key]]
             if Counter(fe) != Counter(aevents):
-                diffs.append("%s order: events of %s differ: fused %s, alone %s"
-                             % ("reverse" if reverse else "list", key, fe[:3], aevents[:3]))
+                diffs.append("%s order: events of %s differ: fused %s, alone %s" % (mode, key, fe[:3], aevents[:3]))
     return diffs
 
 
@@ -521,7 +538,7 @@ def analyse(pr):
                 fails.append(("consistent-renaming",
                               "phase %s: occurrences of %r of the second method became %s"
                               % (name, old, {n: sorted(r) for n, r in sorted(news.items())}),
-                              {"old": old, "odd_roles": odd, "clean": len(main) == 1}))
+                              {"old": old, "odd_roles": odd, "clean": len(main) == 1, "phase": name}))
             sigma[old] = main[0] if len(main) == 1 else (sorted(news)[0] if len(news) == 1 else old)
         for old, new in sigma.items():
             if old != new:
@@ -535,14 +552,14 @@ def analyse(pr):
             if pj is None:
                 if ren and persistent(old):
                     fails.append(("persistent-shared", "phase %s: %r of the second method was renamed to %r although "
-                                  "no predicate asked for it" % (name, old, new), {"old": old}))
+                                  "no predicate asked for it" % (name, old, new), {"old": old, "phase": name}))
             else:
                 if ren and not pred(old):
                     fails.append(("predicate-respected", "phase %s: %r renamed to %r although "
-                                  "should_disambiguate_name(%r) is False" % (name, old, new, old), {"old": old}))
+                                  "should_disambiguate_name(%r) is False" % (name, old, new, old), {"old": old, "phase": name}))
                 if (not ren) and pred(old) and old in clashes and not loop_scoped_only(S1 + S2, old):
-                    fails.append(("predicate-respected", "phase %s: %r clashes and should_disambiguate_name(%r) is "
-                                  "True but it was not renamed" % (name, old, old), {"old": old, "kept": True}))
+                    fails.append(("clash-renamed", "phase %s: %r clashes and should_disambiguate_name(%r) is "
+                                  "True but it was not renamed" % (name, old, old), {"old": old, "phase": name}))
         # --- new names are new, and the renaming is injective
         inv = {}
         for old, new in sigma.items():
@@ -564,16 +581,16 @@ def analyse(pr):
                 continue                      # the caller asked to keep it shared
             fails.append(("temporaries-disjoint", "phase %s: temporary %r is used by both halves of the fused phase "
                           "(roles in first %s, in second %s)" % (name, n, sorted(n1[n]), sorted(f2names[n])),
-                          {"name": n, "roles1": sorted(n1[n]), "roles2": sorted(f2names[n])}))
+                          {"name": n, "roles1": sorted(n1[n]), "roles2": sorted(f2names[n]), "phase": name}))
         sigma_all[name] = sigma
         variants[name] = (S1, S2, F2)
     info["renamed_any"] = renamed_any
     return fails, info, fused, (sigma_all, variants)
 
 
-def repaired(pr, fused, aux, skip=None):
-    """the fused DAG with the second half re-derived from the original statements by a complete renaming;
-    `skip` leaves one known defect unrepaired"""
+def repaired(pr, fused, aux, repair):
+    """the fused DAG with the second half re-derived from the original statements, repairing the known defects
+    named in `repair` (subset of D6, D7, D24) and reproducing the real result in every other respect"""
     sigma_all, variants = aux
     pj = pr.get("pred")
     pred = build_pred(pj)
@@ -584,41 +601,67 @@ def repaired(pr, fused, aux, skip=None):
             continue
         S1, S2, F2 = variants[name]
         m = dict(sigma_all[name])
-        if skip != "D6":
+        if "D6" in repair:
             for old in list(m):
                 if m[old] != old and (persistent(old) if pj is None else not pred(old)):
                     m[old] = old
-        new2 = [rename_stmt(s, f, m, keep_real_idents=(skip == "D7"), keep_real_guard=(skip == "D24"))
-                for s, f in zip(S2, F2)]
+        keep_idents, keep_guard = "D7" not in repair, "D24" not in repair
+        if "INV" in repair:
+            # clashing temporaries that were not renamed at all (no clash was seen) get a new name everywhere
+            n1, n2 = names_of(S1), names_of(S2)
+            taken = set(n1) | set(n2) | set(m.values())
+            for n in sorted(set(n1) & set(n2)):
+                if persistent(n) or m.get(n, n) != n or (pj is not None and not pred(n)):
+                    continue
+                if loop_scoped_only(list(S1) + list(S2), n):
+                    continue
+                k = 0
+                while "%s_inv%d" % (n, k) in taken:
+                    k += 1
+                m[n] = "%s_inv%d" % (n, k)
+                taken.add(m[n])
+        new2 = []
+        for s_, f in zip(S2, F2):
+            inv = {ident for ident, _, _ in getattr(s_, "loops", []) if m.get(ident, ident).find("_inv") > 0}
+            new2.append(rename_stmt(s_, f, m, keep_real_idents=keep_idents and not inv, keep_real_guard=keep_guard))
         phases[name] = lang.ExecutionPhase(name, ph.next_phase, list(S1) + new2)
     return lang.DAGCode(phases, fused.initial_phase)
 
 
 def run_clause(pr, fused, aux):
-    diffs = compare_runs(pr, fused)
-    if diffs is None:
+    dom = run_domain(pr)
+    if dom is None:
         return None, {}
+    diffs = compare_runs(pr, fused, dom)
     if not diffs:
         return [], {}
-    data = {"explained": False, "needs": []}
+    data = {"minimal_repairs": []}
     if aux is not None:
         try:
-            full = compare_runs(pr, repaired(pr, fused, aux))
-            if full == []:
-                data["explained"] = True
-                for k in ("D6", "D7", "D24"):
-                    part = compare_runs(pr, repaired(pr, fused, aux, skip=k))
-                    if part:
-                        data["needs"].append(k)
+            if compare_runs(pr, repaired(pr, fused, aux, set()), dom):        # reproduction of the real result
+                import itertools
+                for k in (1, 2, 3, 4):
+                    for rs in itertools.combinations(("D6", "D7", "D24", "INV"), k):
+                        if any(set(m) <= set(rs) for m in data["minimal_repairs"]):
+                            continue
+                        if not compare_runs(pr, repaired(pr, fused, aux, set(rs)), dom):
+                            data["minimal_repairs"].append(list(rs))
         except Exception as ex:
             data["repair_error"] = "%s: %s" % (type(ex).__name__, ex)
     return diffs, data
 
 
+def item_name(data):
+    return data.get("old") or data.get("name")
+
+
 def check(inp, want_run=True):
+    """failures [(clause, detail, data)] of the pair, restricted to inp["clause"] / inp["name"] if given"""
     pr = inp["pair"]
     fails, info, fused, aux = analyse(pr)
-    if fused is not None and want_run and not any(c in ("fuse-raises", "phases", "statements-present") for c, _, _ in fails):
+    want_run = want_run and inp.get("clause") in (None, "same-results-as-alone")
+    if fused is not None and want_run and not any(c in ("fuse-raises", "phases", "statements-present")
+                                                  for c, _, _ in fails):
         diffs, data = run_clause(pr, fused, aux)
         if diffs is None:
             info["run_out_of_domain"] = True
@@ -628,6 +671,8 @@ def check(inp, want_run=True):
                 fails.append(("same-results-as-alone", "; ".join(diffs[:3]), data))
     if inp.get("clause"):
         fails = [f for f in fails if f[0] == inp["clause"]]
+    if inp.get("name"):
+        fails = [f for f in fails if item_name(f[2]) == inp["name"]]
     return fails, info
 
 
@@ -657,73 +702,77 @@ def declared_clashes(pr):
     return out
 
 
-def fp_d6(inp):
-    """the predicate is not consulted: exactly the declared clashes are renamed, among them a persistent name /
-    <t> / <dt> (no predicate) or a name the predicate rejects"""
-    clause = inp.get("clause")
-    if clause not in ("persistent-shared", "predicate-respected", "same-results-as-alone"):
-        return False
-    pr = inp["pair"]
-    fails, info, fused, aux = analyse(pr)
-    if aux is None:
-        return False
+def _renames_every_declared_clash(pr, aux):
     sigma_all, _ = aux
     cl = declared_clashes(pr)
     for name, sigma in sigma_all.items():
         ren = {o for o, n in sigma.items() if o != n}
         if ren != {c for c in cl.get(name, set()) if c in sigma}:
-            return False                     # not the "rename every clash" behaviour
-    bad = [f for f in fails if f[0] in ("persistent-shared", "predicate-respected") and not f[2].get("kept")]
-    if not bad:
+            return False
+    return True
+
+
+def _run_needs(inp, which):
+    fails, _ = check(dict(inp, name=None))
+    return any(c == "same-results-as-alone" and any(which in m for m in d.get("minimal_repairs", []))
+               for c, _, d in fails)
+
+
+def fp_d6(inp):
+    """the predicate is not consulted: exactly the declared clashes are renamed, among them a persistent name /
+    <t> / <dt> (no predicate) or a name the predicate rejects; for a run failure: repairing that is part of a
+    minimal repair"""
+    clause = inp.get("clause")
+    if clause not in ("persistent-shared", "predicate-respected", "same-results-as-alone"):
+        return False
+    pr = inp["pair"]
+    fails, info, fused, aux = analyse(pr)
+    if aux is None or not _renames_every_declared_clash(pr, aux):
+        return False
+    if not any(f[0] in ("persistent-shared", "predicate-respected") for f in fails):
         return False
     if clause == "same-results-as-alone":
-        f2, _ = check(inp)
-        return any(c == clause and d.get("explained") and "D6" in d.get("needs", []) for c, _, d in f2)
-    return any(f[0] == clause for f in bad) and not any(
-        f[0] == clause and f[2].get("kept") for f in fails)
+        return _run_needs(inp, "D6")
+    return bool(check(inp, want_run=False)[0])
+
+
+def _stray(inp, role, dk):
+    """the failure is a renamed name that keeps its old spelling exactly in occurrences of kind `role`"""
+    clause = inp.get("clause")
+    if clause == "consistent-renaming":
+        fails, _ = check(inp, want_run=False)
+        return bool(fails) and all(d.get("clean") and d.get("odd_roles") == [role] for _, _, d in fails)
+    if clause == "temporaries-disjoint":
+        fails, _ = check(inp, want_run=False)
+        cons = {d.get("old") for c, _, d in check(dict(inp, clause="consistent-renaming", name=None), False)[0]
+                if d.get("clean") and role in d.get("odd_roles", [])}
+        return bool(fails) and all(d.get("roles2") == [role] and d.get("name") in cons for _, _, d in fails)
+    if clause == "same-results-as-alone":
+        cons = [d for c, _, d in check(dict(inp, clause="consistent-renaming", name=None), False)[0]
+                if role in d.get("odd_roles", [])]
+        return bool(cons) and _run_needs(inp, dk)
+    return False
 
 
 def fp_d7(inp):
     """a renamed name keeps its old spelling exactly where it is a loop identifier"""
-    clause = inp.get("clause")
-    if clause == "consistent-renaming":
-        fails, _ = check(inp, want_run=False)
-        return bool(fails) and all(d.get("clean") and d.get("odd_roles") == ["loop_ident"] for _, _, d in fails)
-    if clause == "same-results-as-alone":
-        fails, _ = check(dict(inp, clause=None))
-        if not any(c == "consistent-renaming" and "loop_ident" in d.get("odd_roles", []) for c, _, d in fails):
-            return False
-        return any(c == clause and d.get("explained") and "D7" in d.get("needs", []) for c, _, d in fails)
-    return False
+    return _stray(inp, "loop_ident", "D7")
 
 
 def fp_d24(inp):
     """a renamed name keeps its old spelling exactly where it occurs in a guard"""
-    clause = inp.get("clause")
-    if clause == "consistent-renaming":
-        fails, _ = check(inp, want_run=False)
-        return bool(fails) and all(d.get("clean") and d.get("odd_roles") == ["guard"] for _, _, d in fails)
-    if clause == "same-results-as-alone":
-        fails, _ = check(dict(inp, clause=None))
-        if not any(c == "consistent-renaming" and "guard" in d.get("odd_roles", []) for c, _, d in fails):
-            return False
-        return any(c == clause and d.get("explained") and "D24" in d.get("needs", []) for c, _, d in fails)
-    return False
-
-
-def fp_d7_d24_mixed(inp):
-    """consistent-renaming fails and every stray occurrence is a loop identifier or a guard (both D7 and D24)"""
-    if inp.get("clause") != "consistent-renaming":
-        return False
-    fails, _ = check(inp, want_run=False)
-    roles = {r for _, _, d in fails for r in d.get("odd_roles", [])}
-    return bool(fails) and all(d.get("clean") for _, _, d in fails) and roles == {"guard", "loop_ident"}
+    return _stray(inp, "guard", "D24")
 
 
 def fp_invisible_name(inp):
     """a temporary shared by both halves is in no declared read/write set of one of the methods (it occurs only
     as a left-hand subscript / loop bound / loop identifier there: the D8 omission), so no clash was seen"""
-    if inp.get("clause") != "temporaries-disjoint":
+    if inp.get("clause") == "same-results-as-alone":
+        struct = [f for f in check(dict(inp, clause=None, name=None), False)[0]
+                  if f[0] in ("temporaries-disjoint", "clash-renamed")]
+        return any(fp_invisible_name({"pair": inp["pair"], "clause": c, "name": item_name(d)}) for c, _, d in struct) \
+            and _run_needs(inp, "INV")
+    if inp.get("clause") not in ("temporaries-disjoint", "clash-renamed"):
         return False
     pr = inp["pair"]
     fails, _ = check(inp, want_run=False)
@@ -731,16 +780,17 @@ def fp_invisible_name(inp):
         return False
     d1, d2 = build_dag(pr["m1"]), build_dag(pr["m2"])
 
-    def declared(d):
+    def declared(d, phase):
         acc = set()
-        for ph in d.phases.values():
-            for st in ph.statements:
-                acc |= set(st.get_read_variables()) | set(st.get_written_variables())
+        for st in d.phases[phase].statements:
+            acc |= set(st.get_read_variables()) | set(st.get_written_variables())
         return acc
-    a, b = declared(d1), declared(d2)
     for _, _, data in fails:
-        n = data.get("name")
-        if n is None or (n in a and n in b):
+        n = item_name(data)
+        ph = data.get("phase")
+        if n is None or ph is None or data.get("names"):
+            return False
+        if n in declared(d1, ph) and n in declared(d2, ph):
             return False
     return True
 
@@ -749,7 +799,6 @@ FINGERPRINTS = {
     "D6_predicate_ignored_every_clash_renamed": fp_d6,
     "D7_loop_identifier_not_renamed": fp_d7,
     "D24_guard_not_renamed": fp_d24,
-    "D7_and_D24_in_one_pair": fp_d7_d24_mixed,
     "shared_temporary_invisible_to_declared_sets": fp_invisible_name,
 }
 
@@ -965,10 +1014,16 @@ def bounded(payload):
         parts["shared_loop_identifier_only_not_counted"] += info.get("shared_loop_identifier_only", 0)
         if not fails:
             parts["pairs_all_clauses_hold"] += 1
-        for clause in sorted({c for c, _, _ in fails}):
-            detail = next(d for c, d, _ in fails if c == clause)
+        seen_items = set()
+        for clause, detail, data in fails:
+            item = (clause, item_name(data))
+            if item in seen_items:
+                continue
+            seen_items.add(item)
             parts["failing_" + clause] += 1
             inp = {"pair": pr, "clause": clause}
+            if item[1]:
+                inp["name"] = item[1]
             matched = [n for n, f in sorted(FINGERPRINTS.items()) if _safe(f, inp)]
             for m in matched:
                 parts["fingerprint_" + m] += 1
